@@ -64,6 +64,13 @@ const MALFORMED: &[(&str, &str, bool)] = &[
     ("ident-emoji-only", "😀", false),
     ("ident-hash", "#foo", false),
     ("hardware-emoji", "$😀", false),
+    // the two Latin-1 characters that have the Emoji property
+    ("ident-copyright-inside", "x©y", false),
+    ("ident-registered-tail", "total®", false),
+    ("ident-copyright-head", "©right", false),
+    ("ident-registered-only", "®", false),
+    ("hardware-registered", "$®", false),
+    ("ident-emoji-then-copyright", "a🙂©b", false),
 ];
 
 const LEXER_MESSAGES: &[&str] = &[
@@ -390,8 +397,20 @@ fn gate_include_case(seed: u64, obs: &mut Obs) {
     for lvl in 0..=depth {
         // every file has a semantic fault (undeclared name) so that leaked analysis is visible
         let mut t = format!("int v{lvl} = 1;\nundeclared{lvl} = v{lvl};\n");
+        // clean sibling includes in front of and behind the include that continues the chain
+        let (sib_before, sib_after) = (r.chance(1, 3), r.chance(1, 2));
+        if sib_before {
+            let n = format!("sib_b{lvl}.inc");
+            let _ = std::fs::write(dir.join(&n), format!("int sb{lvl} = 1;\n"));
+            t.push_str(&format!("include \"{n}\";\n"));
+        }
         if lvl < depth {
             t.push_str(&format!("include \"{}\";\n", names[lvl + 1]));
+        }
+        if sib_after {
+            let n = format!("sib_a{lvl}.inc");
+            let _ = std::fs::write(dir.join(&n), format!("int sa{lvl} = 1;\n"));
+            t.push_str(&format!("include \"{n}\";\n"));
         }
         t.push_str(&format!("int w{lvl} = 2;\n"));
         if Some(lvl) == err_at {
